@@ -29,6 +29,7 @@ type Env struct {
 	e     *enc
 	st    *State
 	old   *State
+	prev  *State // state at the head of the current loop iteration (step clauses)
 	bound map[string]SVal
 	lvals map[string]lval // names that denote memory (captured variables at call sites)
 	fn    *ssa.Function   // function whose locals are visible (nil at call sites)
@@ -432,11 +433,15 @@ func (e *enc) indexVal(v, i SVal, env *Env) SVal {
 		if et == nil {
 			env.fail("index of slice with unknown element type")
 		}
-		idx := fmt.Sprintf("(+ (soff %s) %s)", v.t, i.t)
+		arrT, offT := slicePart(v.t, 0), slicePart(v.t, 1)
+		idx := fmt.Sprintf("(+ %s %s)", offT, i.t)
+		if offT == "0" {
+			idx = i.t
+		}
 		if suf := fmt.Sprintf(" (soff %s))", v.t); strings.HasPrefix(i.t, "(- q_") && strings.HasSuffix(i.t, suf) {
 			idx = strings.TrimSuffix(strings.TrimPrefix(i.t, "(- "), suf) // absolute position (see SQuant)
 		}
-		addr := e.mkElem(fmt.Sprintf("(sarr %s)", v.t), idx)
+		addr := e.mkElem(arrT, idx)
 		return SVal{t: e.loadValue(env.st, addr, et), typ: et, sort: sortOf(et)}
 	case "Str":
 		return SVal{t: fmt.Sprintf("(strat %s %s)", v.t, i.t), sort: "Int"}
@@ -469,6 +474,36 @@ func (e *enc) indexVal(v, i SVal, env *Env) SVal {
 	}
 	env.fail("cannot index value of sort %s", v.sort)
 	return SVal{}
+}
+
+// slicePart returns component k (0 arr, 1 off, 2 len, 3 cap) of a slice term, syntactically when the
+// term is a (mkslice ...) application (so that addresses into local arrays stay recognisable).
+func slicePart(t string, k int) string {
+	acc := []string{"sarr", "soff", "slen", "scap"}[k]
+	if !strings.HasPrefix(t, "(mkslice ") || !strings.HasSuffix(t, ")") {
+		return "(" + acc + " " + t + ")"
+	}
+	body := t[len("(mkslice ") : len(t)-1]
+	var parts []string
+	d, start := 0, 0
+	for i, c := range body {
+		switch c {
+		case '(':
+			d++
+		case ')':
+			d--
+		case ' ':
+			if d == 0 {
+				parts = append(parts, body[start:i])
+				start = i + 1
+			}
+		}
+	}
+	parts = append(parts, body[start:])
+	if len(parts) != 4 {
+		return "(" + acc + " " + t + ")"
+	}
+	return parts[k]
 }
 
 func (e *enc) nilOf(sort string) string {
@@ -547,6 +582,14 @@ func (e *enc) evalBin(n *SBin, env *Env) SVal {
 
 func (e *enc) evalCall(n *SCall, env *Env) SVal {
 	arg := func(i int) SVal { return e.evalSpec(n.args[i], env) }
+	if n.fun == "$prev" {
+		if env.prev == nil {
+			env.fail("prev() is only meaningful in loop step clauses")
+		}
+		env2 := *env
+		env2.st = env.prev
+		return e.evalSpec(n.args[0], &env2)
+	}
 	switch n.fun {
 	case "len":
 		v := arg(0)
